@@ -176,6 +176,13 @@ def run(chk: Check):
     macros.rule_m5(chk, ix)
     rule_counter(chk, ix)
     rule_newline_neutral(chk, ix)
+    # the line-continuation flag must not leak into the next logical line (C09 K6); flag-setting actions must not be re-run by
+    # re-parsing the same position (C18 W1: a fork through unmemoised rules re-executes the actions on cached tokens)
+    from .c09 import rule_k6
+    from .c18 import rule_w1
+    from .. import constfold
+    rule_k6(chk, constfold.fold_tokenize(), ix, False)
+    rule_w1(chk, ir, False, "W1-memo-barrier")
     chk.floor("M3-flag-typestate", 12)
     chk.floor("N2-path-token", 1)
     chk.floor("M5-indent-balance", 4)
